@@ -599,7 +599,7 @@ def main(args: Any) -> int:
         "environment contract: a content change changes the file size or its real-valued mtime (documented in FileSystemWatcher's docstring); equal content has equal size",
         "hash equality = content equality",
     ]
-    rep.outside += ["dependency generation (server/deps.py), AST merge/strip, trigger propagation over real symbol tables: pointer-rich whole-program code, not encodable"]
+    rep.outside += ["dependency generation (server/deps.py), AST merge/strip beyond the type-reference replacement of K6, trigger propagation over real symbol tables: pointer-rich whole-program code, not encodable"]
     if only is None or "K1" in only:
         k1_fswatcher(rep)
     if only is None or "K2" in only:
@@ -611,6 +611,10 @@ def main(args: Any) -> int:
     if only is None or "K5" in only:
         k5_mro_cache(rep)
         rep.bounds.append("K5: class C with old and new base lists over {B1, B2} (5 shapes each), one cached subtype answer (positive or negative) about C against B1 or B2")
+    if only is None or "K6" in only:
+        from vf import c03_merge
+
+        c03_merge.run(rep, args.tier)
     return rep.finish()
 
 
